@@ -23,6 +23,7 @@ try:
     if subprocess.run(["git", "-C", wt, "apply", str(d / "patch.diff")]).returncode != 0:
         sys.exit("patch does not apply")
     env = dict(os.environ, VERIF_REPO=wt)
+    saved = {p: (V / "evidence" / f"{p}.json").read_text() for p in props if (V / "evidence" / f"{p}.json").exists()}
     for p in props:
         r = subprocess.run(["./check", p, "quick"], cwd=V, capture_output=True, text=True, env=env)
         vio = [l for l in r.stdout.splitlines() if l.startswith("VIOLATION")]
@@ -35,6 +36,8 @@ try:
         results.append({"check": f"./check {p} quick", "rc": r.returncode, "violation_line": vio[0] if vio else None, "finding": what,
                         "summary": r.stdout.strip().splitlines()[-1] if r.stdout.strip() else ""})
 finally:
+    for p, txt in locals().get("saved", {}).items():      # evidence belongs to runs on the unchanged tree
+        (V / "evidence" / f"{p}.json").write_text(txt)
     subprocess.run(["git", "-C", "/repo", "worktree", "remove", "--force", wt])
     # the Gen files were regenerated from the patched tree: restore them from /repo
     subprocess.run(["/venv/bin/python", str(V / "harness/pv/gen_all.py")], capture_output=True)
